@@ -10,7 +10,7 @@ Not decided: monotone committed times, float equality of positions, 'exactly one
 import ast
 from typing import Dict, List, Optional, Tuple
 
-from ..core import AnalysisError, Loc, Report, Source, norm
+from ..core import IdiomNotRecognised, AnalysisError, Loc, Report, Source, norm
 from ..handlers import HandlerFacts, concrete_handlers, is_zero_vector, is_time_slice_routine, stores, time_slice_obligations
 from ..protocol import HandlerProtocol, _is_copy_of
 from ..pyfront import Program, body_without_docstring, param_names, self_attr
@@ -185,7 +185,7 @@ def analyse(src: Source) -> List[Report]:
     base = prog.class_named("BasicEventHandler")
     slicers = [fn for fn in base.methods.values() if is_time_slice_routine(fn)]
     if len(slicers) != 1:
-        raise AnalysisError(f"time-slice routine not identified uniquely by role ({[f.name for f in slicers]})")
+        raise IdiomNotRecognised(f"time-slice routine not identified uniquely by role ({[f.name for f in slicers]})")
     for rule, ok, node, msg in time_slice_obligations(slicers[0]):
         rep.ob(rule, ok, Loc(base.file, node.lineno, f"{base.name}.{slicers[0].name}"), node, msg)
     # ---- R7.2 / R7.3 who-may-write ---------------------------------------------------------------------------------
